@@ -202,3 +202,101 @@ func insideLoop(fn *ast.FuncDecl, pos token.Pos) bool {
 	})
 	return in
 }
+
+// localClosure: fun names a local variable of the function with body `body` that is bound exactly once, to a
+// function literal, and is otherwise only called (never reassigned, passed on, started with go or deferred):
+// a call of it runs the literal's body at the call site. It returns the literal.
+func localClosure(info *types.Info, body *ast.BlockStmt, fun ast.Expr) *ast.FuncLit {
+	id, ok := unparen(fun).(*ast.Ident)
+	if !ok || body == nil {
+		return nil
+	}
+	v, ok := identObj(info, id).(*types.Var)
+	if !ok || v.IsField() || v.Pkg() == nil || v.Parent() == v.Pkg().Scope() {
+		return nil
+	}
+	var lit *ast.FuncLit
+	binds, bad := 0, false
+	called := map[*ast.Ident]bool{}
+	ast.Inspect(body, func(n ast.Node) bool {
+		switch x := n.(type) {
+		case *ast.AssignStmt:
+			for i, l := range x.Lhs {
+				if identObj(info, l) == v {
+					binds++
+					if len(x.Lhs) == len(x.Rhs) {
+						lit, _ = unparen(x.Rhs[i]).(*ast.FuncLit)
+					}
+				}
+			}
+		case *ast.ValueSpec:
+			for i, nm := range x.Names {
+				if info.Defs[nm] == v {
+					binds++
+					if i < len(x.Values) {
+						lit, _ = unparen(x.Values[i]).(*ast.FuncLit)
+					}
+				}
+			}
+		case *ast.GoStmt:
+			if identObj(info, x.Call.Fun) == v {
+				bad = true
+			}
+		case *ast.DeferStmt:
+			if identObj(info, x.Call.Fun) == v {
+				bad = true
+			}
+		case *ast.CallExpr:
+			if ci, ok := unparen(x.Fun).(*ast.Ident); ok && info.Uses[ci] == v {
+				called[ci] = true
+			}
+		}
+		return true
+	})
+	if binds != 1 || lit == nil || bad {
+		return nil
+	}
+	// every other mention is the function position of a call
+	ast.Inspect(body, func(n ast.Node) bool {
+		if i, ok := n.(*ast.Ident); ok && info.Uses[i] == v && !called[i] {
+			bad = true
+		}
+		return true
+	})
+	// the literal does not call itself and has a plain body (a return inside it would end the literal, not the caller)
+	ast.Inspect(lit.Body, func(n ast.Node) bool {
+		switch x := n.(type) {
+		case *ast.Ident:
+			if info.Uses[x] == v {
+				bad = true
+			}
+		case *ast.ReturnStmt:
+			bad = true
+		case *ast.FuncLit:
+			return false
+		}
+		return true
+	})
+	if bad {
+		return nil
+	}
+	return lit
+}
+
+// closureCallSites lists the statements of body that call the local closure lit is bound to.
+func closureCallSites(info *types.Info, body *ast.BlockStmt, lit *ast.FuncLit) []ast.Stmt {
+	var out []ast.Stmt
+	ast.Inspect(body, func(n ast.Node) bool {
+		es, ok := n.(*ast.ExprStmt)
+		if !ok {
+			return true
+		}
+		if c, ok := es.X.(*ast.CallExpr); ok {
+			if l := localClosure(info, body, c.Fun); l == lit {
+				out = append(out, es)
+			}
+		}
+		return true
+	})
+	return out
+}
